@@ -1,6 +1,7 @@
 package main
 
 import (
+	"errors"
 	"math/rand/v2"
 	"sort"
 	"strings"
@@ -58,12 +59,21 @@ func c10Scripted(c *Ctx) {
 		var pending []*scriptedMeter
 		// a slow backend: time passes while the request is being served
 		var inRequest time.Duration
+		var served []string // hosts that served the requests of the final still stretch
+		recording := false
 		rr, _ := roundrobin.New(http.HandlerFunc(func(w http.ResponseWriter, req *http.Request) {
 			if inRequest > 0 {
 				advance(inRequest)
 			}
+			if recording {
+				served = append(served, req.URL.Host)
+			}
 		}))
+		failFactory := false
 		rb, err := roundrobin.NewRebalancer(rr, roundrobin.RebalancerBackoff(backoff), roundrobin.RebalancerMeter(func() (roundrobin.Meter, error) {
+			if failFactory {
+				return nil, errors.New("meter factory failure injected by the harness")
+			}
 			m := &scriptedMeter{ready: true}
 			pending = append(pending, m)
 			return m, nil
@@ -81,10 +91,13 @@ func c10Scripted(c *Ctx) {
 		upsert := func(idx int, w int) bool {
 			u := mustURL(sfmt("http://b%d.test/", idx))
 			pending = nil
-			if err := rb.UpsertServer(u, roundrobin.Weight(w)); err != nil {
+			// the caller hands over its own url.URL value and re-uses it for something else afterwards
+			mine := *u
+			if err := rb.UpsertServer(&mine, roundrobin.Weight(w)); err != nil {
 				c.Violation("upsert/error", err.Error(), desc())
 				return false
 			}
+			mine.Host, mine.Path = "reused-by-the-caller.test", "/elsewhere"
 			for _, s := range srvs {
 				if s.u.Host == u.Host {
 					s.conf = w
@@ -125,6 +138,25 @@ func c10Scripted(c *Ctx) {
 				ws[k] = w
 			}
 			return ws, true
+		}
+		// the pool that serves traffic must be the one the rebalancer keeps records (and meters) for
+		checkMembers := func(when string) bool {
+			want := map[string]bool{}
+			for _, sv := range srvs {
+				want[sv.u.Host] = true
+			}
+			have := rr.Servers()
+			for _, u := range have {
+				if !want[u.Host] {
+					c.Violation("member/unrecorded", sfmt("%s: the balancer routes to %v, which is not one of the servers registered through the rebalancer (%d registered): it has no meter, can never be rated and never loses share", when, u, len(srvs)), desc())
+					return false
+				}
+			}
+			if len(have) != len(srvs) {
+				c.Violation("member/count", sfmt("%s: the balancer holds %d servers, %d are registered through the rebalancer", when, len(have), len(srvs)), desc())
+				return false
+			}
+			return true
 		}
 		checkConfigured := func(when string) bool {
 			ws, ok := weights()
@@ -171,8 +203,24 @@ func c10Scripted(c *Ctx) {
 			tail := q >= nreq
 			// occasionally administer
 			if !tail && r.IntN(60) == 0 && len(srvs) >= 2 {
-				op := r.IntN(4)
+				op := r.IntN(5)
 				switch {
+				case op == 4:
+					// an add whose meter cannot be created: the call fails and the server must not end up serving unmetered
+					script = append(script, sfmt("add b%d with a failing meter factory", nextIdx))
+					failFactory = true
+					err := rb.UpsertServer(mustURL(sfmt("http://b%d.test/", nextIdx)), roundrobin.Weight(pick(r, confChoices)))
+					failFactory = false
+					nextIdx++
+					if err == nil {
+						c.Violation("upsert/failed-factory-accepted", "UpsertServer returned nil although the meter factory failed", desc())
+						return
+					}
+					c.Count("adds_with_failing_meter_factory", 1)
+					if !checkMembers("after an add that failed (meter factory error)") {
+						return
+					}
+					continue
 				case op == 3 && len(srvs) < 7:
 					// a server that is added, serves while its meter is still warming up, and is taken out again before it is
 					// ready
@@ -216,7 +264,7 @@ func c10Scripted(c *Ctx) {
 					}
 				}
 				c.Count("membership_changes", 1)
-				if !checkConfigured("immediately after a membership / weight change") {
+				if !checkConfigured("immediately after a membership / weight change") || !checkMembers("after a membership / weight change") {
 					return
 				}
 				haveLast = false
@@ -440,6 +488,47 @@ func c10Scripted(c *Ctx) {
 				p2active = false
 			}
 			prev = cur
+		}
+		if !checkMembers("at the end of the history") {
+			return
+		}
+		// still stretch ("never starves"): the clock stands still and all servers are rated alike, so after one warm-up
+		// request (which may be the one adjustment that is due) nothing can be due any more; in 2W further requests, W being
+		// one full rotation of the effective weights, every server with a positive weight must have been given traffic
+		inRequest = 0
+		rb.ServeHTTP(httptest.NewRecorder(), httptest.NewRequest("GET", "http://c.test/", nil))
+		if ws, ok := weights(); ok {
+			g, sum := 0, 0
+			for _, w := range ws {
+				if w > 0 {
+					g = gcdInt(g, w)
+					sum += w
+				}
+			}
+			if g > 0 && sum/g <= 3000 {
+				W := sum / g
+				recording = true
+				for q := 0; q < 2*W; q++ {
+					rb.ServeHTTP(httptest.NewRecorder(), httptest.NewRequest("GET", "http://c.test/", nil))
+				}
+				recording = false
+				after, ok2 := weights()
+				if ok2 && eqInts(ws, after) && len(served) == 2*W {
+					got := map[string]int{}
+					for _, h := range served {
+						got[h]++
+					}
+					c.Count("still_stretches_checked", 1)
+					for k, sv := range srvs {
+						if ws[k] > 0 && got[sv.u.Host] == 0 {
+							c.Violation("traffic/starved", sfmt("clock standing still, all servers rated alike, effective weights %v (one rotation = %d requests): %s has weight %d but received none of %d consecutive requests (%v)", ws, W, sv.u.Host, ws[k], 2*W, got), desc())
+							return
+						}
+					}
+				} else {
+					c.Count("still_stretches_undecided", 1)
+				}
+			}
 		}
 		c.Eval()
 		if adjustments >= 2 && adjustmentsWithOutliers >= 1 {
